@@ -128,7 +128,7 @@ RootType(S, op) == CASE op = "query" -> S.query [] op = "mutation" -> S.mutation
 \* ---- S1 "pets": objects, interface, union, enum, input object, arguments with defaults, custom directives
 S1 ==
   [id |-> "pets", query |-> "Query", mutation |-> "Mutation", subscription |-> "Subscription",
-   order |-> <<"Dog", "Cat", "Human", "Query", "Mutation", "Subscription">>,
+   order |-> <<"Dog", "Cat", "Human", "Query", "Mutation", "Subscription", "Ant">>,
    types |-> [
      Pet |-> IfaceT([id |-> Fld(NN(Ty("ID")), NoArgs),
                      name |-> Fld(NN(Ty("String")), [upper |-> Arg(Ty("Boolean"), VB(FALSE))]),
@@ -150,9 +150,12 @@ S1 ==
                    friend |-> Fld(Ty("Cat"), NoArgs),
                    kind |-> Fld(NN(Ty("Kind")), NoArgs),
                    volume |-> Fld(Ty("String"), NoArgs),
+                   nick |-> Fld(NN(Ty("String")), NoArgs),
                    lives |-> Fld(NN(Ty("Int")), NoArgs)],
                   {"Pet"}),
      CatOrDog |-> UnionT({"Cat", "Dog"}),
+     \* the first object type in declaration (name) order; unrelated to the first interface (Pet) and the first union
+     Ant |-> ObjT([legs |-> Fld(Ty("Int"), NoArgs), name |-> Fld(NN(Ty("String")), NoArgs)], {}),
      Human |-> ObjT([name |-> Fld(NN(Ty("String")), NoArgs),
                      age |-> Fld(Ty("Int"), NoArgs),
                      pets |-> Fld(Ls(NN(Ty("Pet"))), [first |-> Arg(Ty("Int"), VI(2))])], {}),
@@ -166,6 +169,7 @@ S1 ==
                      any |-> Fld(Ls(Ty("CatOrDog")), NoArgs),
                      human |-> Fld(Ty("Human"), [name |-> Arg(NN(Ty("String")), Absent)]),
                      dog |-> Fld(Ty("Dog"), NoArgs),
+                     ant |-> Fld(Ty("Ant"), NoArgs),
                      n |-> Fld(Ty("Int"), NoArgs),
                      search |-> Fld(Ls(Ty("Pet")), [f |-> Arg(Ty("Filter"), Absent), tags |-> Arg(Ls(NN(Ty("String"))), Absent)])], {}),
      Mutation |-> ObjT([setN |-> Fld(Ty("Int"), [n |-> Arg(NN(Ty("Int")), Absent)]),
@@ -209,6 +213,8 @@ S2 ==
                      o   |-> Fld(Ty("String"), [x |-> Arg(Ty("In"), Absent)]),
                      oN  |-> Fld(Ty("String"), [x |-> Arg(NN(Ty("In")), Absent)]),
                      lo  |-> Fld(Ty("String"), [x |-> Arg(Ls(NN(Ty("In"))), Absent)]),
+                     lon |-> Fld(Ty("String"), [x |-> Arg(Ls(Ty("In")), Absent)]),
+                     llo |-> Fld(Ty("String"), [x |-> Arg(Ls(Ls(Ty("In"))), Absent)]),
                      any |-> Fld(Ty("String"), [x |-> Arg(Ty("Any"), Absent)]),
                      two |-> Fld(Ty("String"), [a |-> Arg(NN(Ty("Int")), VI(1)), b |-> Arg(Ty("String"), Absent)]),
                      t   |-> Fld(Ty("T"), NoArgs)], {})],
